@@ -128,6 +128,10 @@ SWEEP = {
     'add_series_cols': lambda f: f + sf.Series(range(len(f.columns)), index=f.columns),
     'astype_object': lambda f: f.astype(object),
     'astype_last_float': lambda f: f.astype[f.columns[-1]](float),
+    # non-contiguous keys towards a dtype some block already has: the per-block generator skips and resumes
+    'astype_alternate_to_first_dtype': lambda f: f.astype[sorted(set(list(range(0, len(f.columns), 2)) + [len(f.columns) - 1]))](f.dtypes.values[0]) if False else f.astype[[f.columns[i] for i in sorted(set(list(range(0, len(f.columns), 2)) + [len(f.columns) - 1]))]](f.dtypes.values[0]),
+    'astype_alternate_to_last_dtype': lambda f: f.astype[[f.columns[i] for i in sorted(set([0] + list(range(1, len(f.columns), 2))))]](f.dtypes.values[-1]),
+    'astype_ends_to_middle_dtype': lambda f: f.astype[[f.columns[0], f.columns[len(f.columns) // 2], f.columns[-1]]](f.dtypes.values[len(f.columns) // 2]) if len(f.columns) >= 3 else f.astype(f.dtypes.values[0]),
     'rename': lambda f: f.rename('x'),
     'relabel_cols': lambda f: f.relabel(columns=lambda x: (x, 1)),
     'reindex_cols_rev': lambda f: f.reindex(columns=list(reversed(list(f.columns)))),
